@@ -19,7 +19,8 @@ pub struct Case {
 
 pub fn check_case(case: &Case) -> CaseResult {
     let stream = case.stream.bytes();
-    let block = case.delivery.block_size().unwrap_or(hcobs::DEFAULT_BLOCK_SIZE);
+    let block_at = |call: usize| case.delivery.block_size_at(call).unwrap_or(hcobs::DEFAULT_BLOCK_SIZE);
+    let mut block;
     let mut arena = ByteArena::new();
     stream_in::prepare_arena_for(&mut arena, &case.delivery);
     let mut reader = CyclicReader::new(&stream, &case.delivery);
@@ -32,6 +33,7 @@ pub fn check_case(case: &Case) -> CaseResult {
     let budget = 2 * stream.len() + 16;
     let mut pumps = 0usize;
     loop {
+        block = block_at(pumps);
         pumps += 1;
         if pumps > budget {
             return Err(Fail::new("chunker:no-progress", format!("more than {budget} pump calls for a {}-byte stream (block size {block})", stream.len())));
@@ -64,13 +66,13 @@ pub fn check_case(case: &Case) -> CaseResult {
                 }
                 if hcobs_ref::contains_stuff(s).is_some() {
                     return Err(Fail::new(
-                        if block < 2 { "chunker:sentinel-in-data:block<2" } else { "chunker:sentinel-in-data" },
+                        if case.delivery.any_block_below_2() { "chunker:sentinel-in-data:block<2" } else { "chunker:sentinel-in-data" },
                         format!("Data chunk at position {q} contains FE FD: {} (block size {block})", show(s)),
                     ));
                 }
                 if prev_data_ended_with_fe && s[0] == 0xFD {
                     return Err(Fail::new(
-                        if block < 2 { "chunker:sentinel-straddles-data:block<2" } else { "chunker:sentinel-straddles-data" },
+                        if case.delivery.any_block_below_2() { "chunker:sentinel-straddles-data:block<2" } else { "chunker:sentinel-straddles-data" },
                         format!("FE FD straddles two consecutive Data chunks at position {} (block size {block})", q - 1),
                     ));
                 }
@@ -88,7 +90,7 @@ pub fn check_case(case: &Case) -> CaseResult {
     }
     // Eof is sticky.
     for _ in 0..2 {
-        match chunker.pump(&mut arena, &mut reader, block) {
+        match chunker.pump(&mut arena, &mut reader, block_at(pumps)) {
             Ok(Chunk::Eof) => {}
             Ok(other) => return Err(Fail::new("chunker:after-eof", format!("pump after Eof returned {other:?}"))),
             Err(e) => return Err(Fail::new("chunker:io-error", format!("pump after Eof failed: {e}"))),
@@ -102,8 +104,9 @@ pub fn check_case(case: &Case) -> CaseResult {
         .label_if(reader.split_sentinels > 0, "FE|FD_split_across_reads")
         .label_if(sentinels > 0, "has_sentinel")
         .label_if(reader.interrupts > 0, "eintr")
-        .label_if(block < 2, "block<2")
-        .label_if(block >= 4096, "block>=4096")
+        .label_if(case.delivery.any_block_below_2(), "block<2")
+        .label_if(!case.delivery.blocks.is_empty(), "block_size_changes_between_calls")
+        .label_if(block_at(0) >= 4096, "block>=4096")
         .label_if(data_chunks >= 4, ">=4_data_chunks")
         .label_if(stream.len() > 64_260, "stream>64260")
         .label_if(stream.len() > 1 << 20, "stream>1MiB")
@@ -117,6 +120,7 @@ pub fn case_strategy() -> impl Strategy<Value = Case> {
 fn long_case_strategy() -> impl Strategy<Value = Case> {
     (stream_in::stream_spec(70), stream_in::delivery(), prop_oneof![2u8..10, 12u8..16]).prop_map(|(stream, mut delivery, block)| {
         delivery.block = block;
+        delivery.blocks.clear();
         Case { stream, delivery }
     })
 }
@@ -138,6 +142,7 @@ pub fn run(ctx: &Ctx, rep: &mut Report) {
     let cases = ctx.share(ctx.tier.pick(3_200, 100_000));
     let large = (stream_in::large_stream_spec(), stream_in::delivery(), stream_in::large_block()).prop_map(|(stream, mut delivery, block)| {
         delivery.block = block;
+        delivery.blocks.clear();
         Case { stream, delivery }
     });
     engine::drive(ctx, rep, "large-records", large, cases, check_case);
@@ -150,7 +155,7 @@ fn replay(_ctx: &Ctx, _group: &str, case: &Value) -> CaseResult {
 pub fn def() -> PropDef {
     PropDef {
         id: "C08",
-        rule: "A case is (stream description, delivery): the stream is a sequence of tokens - canonical encodings of small payloads, torn (truncated) and corrupted encodings, garbage, lone FE - each followed by 0..3 FE FD delimiters, optionally truncated as a whole; the delivery is a scripted reader (short reads down to one byte, Interrupted errors, optionally repeating), an io_block_size from {0,1,2,3,4,5,7,8,64,4096,70000,default} and an arena preparation (fresh, pre-sized, 0..4 bytes left in the current chunk; max-size-chunk: the current chunk is a 1 MiB one with 0..37 bytes left). large-records: 1..4 tokens built on payloads of up to 140000 bytes (one in nine of 0.5..1.3 MB: more than a default I/O block and than the arena's largest chunk), block sizes >= 64. pump is called until Eof and twice more. Oracle with running position q: Sentinel(o) has o = q+2 and the stream holds FE FD at q; Data(o, s) is non-empty, equals stream[q..o], contains no FE FD, and a Data ending in FE is never followed by a Data starting with FD; Eof only at the real end and sticky; Sentinel count = number of FE FD occurrences. Non-trivial: the stream has a delimiter and some read delivered exactly the FE of an FE FD pair last. Distinct: hash of the serialised case.",
+        rule: "A case is (stream description, delivery): the stream is a sequence of tokens - canonical encodings of small payloads, torn (truncated) and corrupted encodings, garbage, lone FE - each followed by 0..3 FE FD delimiters, optionally truncated as a whole; the delivery is a scripted reader (short reads down to one byte, Interrupted errors, optionally repeating), an io_block_size from {0,1,2,3,4,5,7,8,64,4096,70000,default} and an arena preparation (fresh, pre-sized, 0..4 bytes left in the current chunk; max-size-chunk: the current chunk is a 1 MiB one with 0..37 bytes left). large-records: 1..4 tokens built on payloads of up to 140000 bytes (one in nine of 0.5..1.3 MB: more than a default I/O block and than the arena's largest chunk), block sizes >= 64. In one delivery out of four every pump call gets its own io_block_size (a cyclic schedule of 2..5 sizes from the same set): the block size is an argument of each call, not of the stream. pump is called until Eof and twice more. Oracle with running position q: Sentinel(o) has o = q+2 and the stream holds FE FD at q; Data(o, s) is non-empty, equals stream[q..o], contains no FE FD, and a Data ending in FE is never followed by a Data starting with FD; Eof only at the real end and sticky; Sentinel count = number of FE FD occurrences. Non-trivial: the stream has a delimiter and some read delivered exactly the FE of an FE FD pair last. Distinct: hash of the serialised case.",
         assumptions: &["readers only deliver short reads and Interrupted errors (hard errors and premature end of file are C17's subject)"],
         exhaustive_note: None,
         shards: |t: Tier| t.pick(8, 16),
